@@ -158,7 +158,7 @@ CHECKS.update({
         "probes": ["census", "grandchild", "three_or_more_parent_threads", "atfork_handlers", "forker_waited_for_mutex"],
     },
     "C11": {
-        "variants": ["asan-ts", "asan-nots"], "level": "exploration",
+        "variants": ["asan-ts", "asan-nots", "asan-ts+reuse"], "variant_share": {"asan-ts": 0.8, "asan-nots": 0.7, "asan-ts+reuse": 0.5}, "level": "exploration",
         "quick": T(8000, 70), "thorough": T(150000, 900),
         "rule": "one run = history of 2-8 (thorough: 2-30) calls in one simulated process; before each call the config file is rewritten (each option present with probability 1/2, valid and invalid values), emptied, corrupted, damaged (rejected lines next to accepted options), deleted, made unreadable or left alone; "
                 "oracle = differential: call k is re-run as the first call of a pristine library image (.data/.bss restored) in the same simulated OS state and must produce the same records at the same sinks; ASan for double frees; library-attributed live heap must not grow. non-trivial = at least 2 calls; distinct = sequence of config classes",
